@@ -4,6 +4,7 @@ package main
 import (
 	"verifharness/mc"
 	_ "verifharness/props/c01"
+	_ "verifharness/props/c02"
 	_ "verifharness/props/c05"
 	_ "verifharness/props/c08"
 	_ "verifharness/props/c09"
